@@ -19,14 +19,18 @@ import (
 )
 
 type Scenario struct {
-	Mode  string   `json:"mode"` // bare seq conc forced
+	Mode  string   `json:"mode"` // bare seq conc forced dblclose fault
 	Opts  SessOpts `json:"opts"`
 	Calls []*Call  `json:"calls"`
 	Park  string   `json:"park,omitempty"` // forced: where the first actor is parked
+	// fault: the FaultAt-th connection write made during the LAST call fails
+	FaultAt int `json:"faultat,omitempty"`
 }
 
 type Outcome struct {
 	NS, From string
+	Params   Params
+	Faulted  bool       // fault: the planned write failure happened
 	Results  [][]string // per call, in call order
 	Events   []Event
 	Wire     []byte
@@ -112,6 +116,7 @@ func (sc *Scenario) Run() *Outcome {
 			ns, from = NSServer, jid.MustParse("example.net")
 			o.From = from.String()
 		}
+		o.Params = Params{OutNS: ns, InNS: ns, Local: o.From}
 		var rec *Recorder
 		tg.Bare, rec, _ = NewBareEncoder(ns, from)
 		o.NS = ns
@@ -135,6 +140,7 @@ func (sc *Scenario) Run() *Outcome {
 		return o
 	}
 	o.X, o.NS, o.From = x, x.NS, x.From
+	o.Params = Params{OutNS: x.NS, InNS: x.InNS, WS: x.WS, Local: x.Local}
 	tg.X = x
 	h := &replyHandler{calls: map[string]*Call{}, res: map[string][]string{}, iter: map[string]int{}}
 	served := make(chan error, 1)
@@ -153,7 +159,7 @@ func (sc *Scenario) Run() *Outcome {
 		h.mu.Lock()
 		h.calls[m] = c
 		h.mu.Unlock()
-		if err := x.P.Send([]byte(`<message m="` + m + `"/>`)); err != nil {
+		if err := x.P.Send([]byte(`<message xmlns="` + x.NS + `" m="` + m + `"/>`)); err != nil {
 			o.Problems = append(o.Problems, Problem{"stuck", i, "peer could not deliver the stanza that triggers the reply: " + err.Error()})
 			return
 		}
@@ -199,11 +205,15 @@ func (sc *Scenario) Run() *Outcome {
 	}
 
 	switch sc.Mode {
-	case "seq":
+	case "seq", "fault":
 		for i, c := range sc.Calls {
 			x.Rec.SetTag(i)
+			if sc.Mode == "fault" && i == len(sc.Calls)-1 && sc.FaultAt > 0 {
+				x.LC.Arm(sc.FaultAt)
+			}
 			runOne(i, c)
 		}
+		o.Faulted = x.LC.Disarm()
 		x.Rec.SetTag(-1)
 	case "dblclose":
 		// Calls: [0] a token writer call A, [1] a Send B that pauses in the middle of
@@ -322,6 +332,49 @@ func (sc *Scenario) Run() *Outcome {
 		}
 	})
 	o.Wire = x.P.WaitQuiet(time.Millisecond, 200*time.Millisecond)
+	if x.WireStart <= len(o.Wire) {
+		o.Wire = o.Wire[x.WireStart:]
+	}
+	if x.WS {
+		// the framing elements are written by the stream package, not through the
+		// stanza encoder: closing the session puts exactly <close/> in the framing
+		// name space on the wire and no token passes the encoder; the negotiation
+		// wrote exactly one <open/> in the framing name space
+		toks := 0
+		for _, e := range x.Rec.Events() {
+			if e.Kind == "tok" {
+				toks++
+			}
+		}
+		before := x.LC.Written()
+		hx.WithTimeout(10*time.Second, func() {
+			if p := hx.Catch(func() { x.S.Close() }); p != "" {
+				o.Problems = append(o.Problems, Problem{"panic", -1, "closing the WebSocket session: " + p})
+			}
+		})
+		all := x.P.WaitQuiet(time.Millisecond, 200*time.Millisecond)
+		after := 0
+		for _, e := range x.Rec.Events() {
+			if e.Kind == "tok" {
+				after++
+			}
+		}
+		const closeWS = `<close xmlns="` + NSFraming + `"/>`
+		if before <= len(all) {
+			if tail := string(all[before:]); tail != closeWS && !hasClause(o.Problems, "panic", "stuck") {
+				o.Problems = append(o.Problems, Problem{"framing", -1, fmt.Sprintf("closing a WebSocket session wrote %q, want %q", tail, closeWS)})
+			}
+		}
+		if after != toks {
+			o.Problems = append(o.Problems, Problem{"framing", -1, "the closing framing element passed through the stanza encoder"})
+		}
+		if x.WireStart <= len(all) {
+			head := string(all[:x.WireStart])
+			if !strings.HasPrefix(head, `<open xmlns="`+NSFraming+`"`) || strings.Count(head, "<open ") != 1 {
+				o.Problems = append(o.Problems, Problem{"framing", -1, fmt.Sprintf("the negotiation of a WebSocket session wrote %q, want one <open/> in the framing name space first", head)})
+			}
+		}
+	}
 	if serving && !o.ServeEnd {
 		x.P.Peer.Close()
 		select {
@@ -434,7 +487,7 @@ func callMarker(c *Call) string {
 // are ordered by their first token in the encoder log (attributed by marker);
 // the others (which changed nothing) follow.
 func (o *Outcome) deriveOrder(sc *Scenario) {
-	if sc.Mode == "seq" {
+	if sc.Mode == "seq" || sc.Mode == "fault" {
 		for i := range sc.Calls {
 			o.Order = append(o.Order, i)
 		}
@@ -588,7 +641,7 @@ func (o *Outcome) Case(sc *Scenario) string {
 		calls = append(calls, sc.Calls[i])
 		res = append(res, o.Results[i])
 	}
-	return SCase(o.NS, o.From, o.IDs, calls, o.Events, res)
+	return SCase(o.Params, o.IDs, calls, o.Events, res)
 }
 
 // Wrote reports whether call i put anything into the encoder log (sequential
@@ -649,7 +702,7 @@ func (o *Outcome) WireCheck(sc *Scenario) []WireFailure {
 		}
 		want = append(want, i)
 	}
-	if sc.Mode != "seq" {
+	if sc.Mode != "seq" && sc.Mode != "fault" {
 		// attribute by marker
 		byMarker := map[string]int{}
 		for _, i := range want {
@@ -701,3 +754,14 @@ func SortedProblems(ps []Problem) []Problem {
 }
 
 var _ = xmpp.Ready
+
+func hasClause(ps []Problem, cl ...string) bool {
+	for _, p := range ps {
+		for _, c := range cl {
+			if p.Clause == c {
+				return true
+			}
+		}
+	}
+	return false
+}
